@@ -501,6 +501,17 @@ func All() []*Scenario {
 				}
 				return r.Result, nil
 			}, Later: lf, LaterWant: lw})
+		// the same command with interim prompt patterns (a continuation prompt this device never shows):
+		// the read that waits for the final prompt takes its other branch
+		l = append(l, &Scenario{Name: "g.sendcommand-interim", Driver: "generic", Quick: true, PerOp: true, SingleDeadline: true, New: newGeneric("privilege-exec"), Pre: openG,
+			Op: func(s *Session, o ...util.Option) (string, error) {
+				o = append([]util.Option{opoptions.WithInterimPromptPattern([]*regexp.Regexp{regexp.MustCompile(`(?m)^\.\.\.> $`), regexp.MustCompile(`(?m)^dquote> $`)})}, o...)
+				r, err := s.G.SendCommand("show version!", o...)
+				if err != nil {
+					return "", err
+				}
+				return r.Result, nil
+			}, Later: lf, LaterWant: lw})
 		// a command that begins like a session-ending word but is an ordinary command to this device
 		l = append(l, &Scenario{Name: "g.sendcommand-exit", Driver: "generic", Quick: true, PerOp: true, SingleDeadline: true, New: newGeneric("privilege-exec"), Pre: openG,
 			Op: func(s *Session, o ...util.Option) (string, error) {
